@@ -85,6 +85,8 @@ def run(tier, replay):
     results = explore(ck, tier, ["plain"], ["plain"], "c07")
     # the same nuclide and mode under different energy-sum windows (what one initialisation leaves for the next)
     results += explore(ck, tier, ["plain"], [], "c07w", cfg="MCHistory_window.cfg", ops=(False,), budget=200 if tier == "thorough" else 40)
+    # one mode (0nu4b), the three nuclides that have it: whatever the mode's code keeps is keyed on the nuclide as well
+    results += explore(ck, tier, ["plain"], [], "c07f", cfg="MCHistory_four.cfg", ops=(False,), budget=200 if tier == "thorough" else 30)
     exhaustive = True
     for rr in results:
         if rr.get("crash"):
@@ -94,7 +96,7 @@ def run(tier, replay):
         ck.add("steps_executed", rr["steps"])
         ck.add("shots_compared_with_canonical", rr["shoots"])
         ck.add("state_action_pairs_executed", rr["pairs_covered"])
-        if rr["phase"].startswith("cover") and not rr["complete"] and "MCHistory_window" not in rr["phase"]:
+        if rr["phase"].startswith("cover") and not rr["complete"] and "MCHistory_window" not in rr["phase"] and "MCHistory_four" not in rr["phase"]:
             exhaustive = False
         for v in rr["violations"]:
             ck.violation(v["key"], v["what"], {"sequence": v["seq"], "phase": rr["phase"]})
